@@ -139,9 +139,14 @@ def run_property(prop, tier, seed, replay=None):
         # 2. proofs
         rc, out = common.lake_build(["Crusta.Props.%s" % prop.id, "driver"] + ([common.witness_module(prop.id)] if prop.id in common.WITNESSES else []))
         lean_ok = rc == 0
+        driver_ok = lean_ok
         if not lean_ok:
             errs = [l for l in out.splitlines() if l.startswith("error")][:8]
             violations.append(("lean build failed", {"kind": "theorem", "what": "lake build Crusta.Props.%s driver failed" % prop.id, "errors": errs}, True))
+            # a proof no longer checks: the executable model may still build, and is then used to look for a concrete
+            # failing input (the correspondence and conformance runs below)
+            rc2, _ = common.lake_build(["driver"])
+            driver_ok = rc2 == 0
         # 3. axiom audit + forbidden constructs
         if lean_ok:
             ok, theorem_names, discharged, problems, raw = common.audit(prop.id, runner.dir)
@@ -171,7 +176,7 @@ def run_property(prop, tier, seed, replay=None):
         findings = []
         all_cases = []
         impl, model = {}, {}
-        if harness_ok and lean_ok:
+        if harness_ok and driver_ok:
             if replay:
                 payload = json.load(open(replay))
                 all_cases = renumber(payload.get("cases", []), "r")
